@@ -31,13 +31,18 @@ def run(chk, tier):
     chk.rule("R-UNION", "the type-specific attribute union obj->attr is accessed only under a matching obj->type: every self-discriminating function is explored once per object type (21 values, product for two objects) by seeded constant propagation; guards are evaluated, not pattern-matched")
     nun, nuf = union.run(chk, P, units=('topology-synthetic.c',))
     chk.floor("R-UNION", "union accesses judged", nun, 15)
+    chk.rule("R-SENTINELSCAN", "an unbounded scan that stops at a zero field (the walk over data->level[] until arity == 0) is called only after the sentinel was planted on every path")
+    import sentinel
+    nss, nsc = sentinel.run(chk, P, "topology-synthetic.c")
+    chk.floor("R-SENTINELSCAN", "calls of functions containing a sentinel scan", nss, 1)
     chk.rule("R-SCANBOUND", "a pointer found by strchr beyond the current item is compared with the item end before use")
     ng = guards.scan_bound(chk, P, "hwloc_backend_synthetic_init", "topology-synthetic.c")
     chk.floor("R-SCANBOUND", "guarded strchr uses", ng, 1)
     chk.rule("R-PROG", "loop progress")
     nl = progloops.run(chk, P, ["topology-synthetic.c"])
     chk.floor("R-PROG", "in-scope loops", nl, 15)
-    chk.decided += ["synthetic attributes are stored into / exported from the union member matching the level's type",
+    chk.decided += ["the level walk of the index parser never reads levels that were not written (sentinel planted before every call)",
+                    "synthetic attributes are stored into / exported from the union member matching the level's type",
                     "the parser accepts or rejects without writing outside its fixed/heap arrays (bounds proved on all paths of the scoped accesses)",
                     "rejects with -1/errno set", "export obeys the snprintf length contract (cursor typestate over 7 functions)", "export flag words validated"]
     chk.undecided += ["faithful build (arities, index interleaving)", "export/import structural equality and fixpoint"]
